@@ -55,16 +55,20 @@ def main():
     sh(f"rsync -a --delete {HARNESS}/ {WORK}/harness/ && sed -i 's#path = \"/repo\"#path = \"{WT}\"#' {WORK}/harness/Cargo.toml")
     sh(f"rm -rf {WORK}/root && mkdir -p {WORK}/root/replays && cp {ROOT}/KNOWN_FINDINGS.txt {WORK}/root/ && cp -r {ROOT}/replays/known {ROOT}/replays/regress {WORK}/root/replays/ 2>/dev/null")
     results = {}
+    CONFIGS = {"C18": ["hv"], "C12": ["main", "hv"], "C05": ["main", "paren"], "C06": ["main", "paren"]}
+    FEATS = {"main": "", "hv": "--features hv", "paren": "--features paren"}
     for pid in ids:
-        feat = {"C18": "--features hv"}.get(pid, "")
-        cfg = {"C18": "hv"}.get(pid, "main")
-        b = sh(f"cd {WORK}/harness && CARGO_NET_OFFLINE=true CARGO_TARGET_DIR={WORK}/target-{cfg} cargo build --release {feat}")
-        if b.returncode:
-            results[pid] = ("BUILD-FAIL", b.stderr[-600:]); continue
-        env = dict(os.environ, SQV_ROOT=f"{WORK}/root", SQV_REPO=WT)
-        r = subprocess.run(f"{WORK}/target-{cfg}/release/sqv {pid} --tier {tier} --config {cfg}", shell=True, text=True, capture_output=True, env=env)
-        sigs = [l.strip() for l in r.stderr.splitlines() if l.strip().startswith("signature=")]
-        results[pid] = (r.returncode, sigs[:4], [l for l in r.stdout.splitlines() if not l.startswith("KNOWN-FINDING")][-2:])
+        for cfg in CONFIGS.get(pid, ["main"]):
+            key = pid if cfg in ("main",) or CONFIGS.get(pid) == [cfg] else f"{pid}/{cfg}"
+            b = sh(f"cd {WORK}/harness && CARGO_NET_OFFLINE=true CARGO_TARGET_DIR={WORK}/target-{cfg} cargo build --release {FEATS[cfg]}")
+            if b.returncode:
+                results[key] = ("BUILD-FAIL", b.stderr[-600:]); continue
+            env = dict(os.environ, SQV_ROOT=f"{WORK}/root", SQV_REPO=WT)
+            r = subprocess.run(f"{WORK}/target-{cfg}/release/sqv {pid} --tier {tier} --config {cfg}", shell=True, text=True, capture_output=True, env=env)
+            sigs = [l.strip() for l in r.stderr.splitlines() if l.strip().startswith("signature=")]
+            results[key] = (r.returncode, sigs[:4], [l for l in r.stdout.splitlines() if not l.startswith("KNOWN-FINDING")][-2:])
+            if r.returncode == 1:
+                break
     print(json.dumps({"mutant": name, "results": results}, indent=1))
     if "--keep" not in sys.argv:
         sh(f"git -C {WT} reset -q --hard")
